@@ -44,6 +44,8 @@ type Session struct {
 	Sched []SchedOp `json:"sched,omitempty"`
 	// results
 	Lines   [][]byte `json:"-"`
+	LinesS  []string `json:"lines,omitempty"` // Lines, for transport between processes
+	NotRun  string   `json:"not_run,omitempty"`
 	Diverge string   `json:"diverge,omitempty"`
 	Panics  []string `json:"panics,omitempty"` // value + stack of every panic that left gqlgen
 }
